@@ -339,6 +339,8 @@ class HScheduler(ActionScheduler):
         super().__init__(*a, **kw)
 
     def default_action(self, obj, time, new_state):
+        if self.current_state != new_state:
+            self.hub.tlog.append(('sched_state_lag', self.name, self.current_state, new_state))
         self.hub.tlog.append(('sched_action', self.name, obj.name, time, new_state, 'default'))
         if hasattr(obj, 'block_input'):
             obj.block_input = (new_state == 'off')
@@ -349,6 +351,8 @@ class OverrideAction:
         self.hub = hub
 
     def __call__(self, sched, obj, time, new_state):
+        if sched.current_state != new_state:
+            self.hub.tlog.append(('sched_state_lag', sched.name, sched.current_state, new_state))
         self.hub.tlog.append(('sched_action', sched.name, obj.name, time, new_state, 'override'))
 
 
@@ -651,7 +655,7 @@ class LineWorld:
                 if d['name'] in self.dev:
                     return False
             return True
-        if k in ('reg', 'unreg'):
+        if k in ('reg', 'unreg', 'addsensor'):
             return op[1] in self.dev and op[2] in self.dev
         if k == 'addres':
             return True
@@ -698,7 +702,7 @@ class LineWorld:
                 labels.append(('ev', k))
         head = self._head_for_ops()
         if self.budget > 0 and tg and head is not None and (head is tg[0] or not self.spec.get('splits')):
-            pos = ['pre']
+            pos = ['pre', 'hi']
             if tg[0].time > env.now:
                 pos += ['end', 'mid']
             pos = [p for p in pos if p in self.positions]
@@ -788,14 +792,22 @@ class LineWorld:
                 elif pos == 'end':
                     t, prio = env.now, EventType.TERMINATE + 0.5
                 elif pos == 'mid':
-                    t, prio = (env.now + head.time) / 2, EventType.OTHER_LOW_PRIORITY
+                    # strictly between now and the next instant (the end of the horizon if that comes first)
+                    t, prio = (env.now + min(head.time, self.horizon)) / 2, EventType.OTHER_LOW_PRIORITY
+                elif pos == 'hi':
+                    # a documented fractional custom priority just above the head's: the library itself must order it first
+                    t, prio = head.time, float(head.event_type) + 0.5
                 else:
                     raise HarnessError(f'bad position {pos}')
-                if pos != 'pre' and not head.time > env.now:
+                if pos not in ('pre', 'hi') and not head.time > env.now:
                     raise HarnessError('position not enabled')
                 act = OpAction(self, i)
                 env.schedule_event(t, HARNESS_ID, act, prio, 'harness')
                 ev = next(e for e in env._events if e.action is act)
+                if pos == 'hi' and (env._events[0] is not ev or len(canon.tie_group(env)) != 1):
+                    raise Violation('priority_order', f'an event scheduled at t={t} with priority {prio} is not ahead of the '
+                                                      f'event with priority {float(head.event_type)} due at the same time '
+                                                      f'(queue head: {canon.event_key(env._events[0])[:4]})')
                 self.budget -= 1
                 self.used[i] += 1
                 self.facts.append('op:' + self.ops[i][0])
@@ -912,6 +924,9 @@ class LineWorld:
         elif k == 'addvalue':
             self.dev[op[1]].add_value('booking', op[2])
             hub.tlog.append(('addvalue', op[1], op[2]))
+        elif k == 'addsensor':
+            self.dev[op[1]].add_sensor(self.dev[op[2]])      # registering a sensor again must change nothing
+            hub.tlog.append(('addsensor', op[1], op[2]))
         elif k == 'bump':
             o = self.dev[op[1]]
             o.x[0] += 1           # in place: a sensor that stored a reference instead of a copy is exposed
@@ -1027,6 +1042,13 @@ def run_e2(spec, monitor_factory, path, prefix_ok=False, trace=False, lenient=Fa
     pushback = []
 
     def shim():
+        h = w.env._events[0] if w.env._events else None
+        if h is not None and h.event_type == EventType.TERMINATE and h.asset_id == -1 and 't_end' in state \
+                and h.time != state['t_end'] and not lenient:
+            v = Violation('run_end', f'simulate({state["t_end"] - state["t_start"]}) started at t={state["t_start"]} scheduled its end '
+                                     f'at t={h.time}, expected {state["t_end"]}')
+            v.mc_steps = state['n']
+            raise v
         label = pushback.pop() if pushback else take()
         if label[0] in ('xop', 'resume'):
             raise HarnessError(f'replay: {label} recorded while the real run is still in progress')
@@ -1068,6 +1090,7 @@ def run_e2(spec, monitor_factory, path, prefix_ok=False, trace=False, lenient=Fa
                 t_prev = 0
                 ends = list(seg_ends) + [w.horizon]
                 for k, t_end in enumerate(ends):
+                    state['t_start'], state['t_end'] = t_prev, t_end
                     try:
                         w.system.simulate(t_end - t_prev, trace=trace, print_summary=False)
                     finally:
